@@ -360,6 +360,7 @@ func c06Continue(e *Env, cfg Cfg, img []byte, sizes []int, a, b int, seed uint64
 	p.NoRecord = true
 	p.Sizes = append([]int(nil), sizes[:b]...)
 	p.acked = a
+	p.idBased = true // the queue exists already (its id base was set when it was created)
 	var err error
 	if e.Guard("C06", "opening the recovered queue again ("+desc+")", func() { err = p.Open() }) {
 		return
